@@ -286,6 +286,22 @@ theorem RInvP.removeNode {P : Id → Prop} {r : Root} (h : RInvP P r) (id : Id) 
   obtain ⟨a, b⟩ := h.removed (removeNode_removed h.nd h.sym id) s1 s3
   exact ⟨a, b, h0⟩
 
+/-- `unsubscribe` (first step of `disposeNode`, repair D19) -/
+theorem RInvP.unsubscribe {P : Id → Prop} {r : Root} (h : RInvP P r) (id : Id) :
+    RInvP P (unsubscribe r id) ∧ Grows r (unsubscribe r id) := by
+  obtain ⟨hget, _, hnd, hsym, ⟨s1, _, s3, _⟩⟩ := unsubscribe_spec h.nd h.sym id
+  have hdead : ∀ j, r.get? j = none → (Reactive.unsubscribe r id).get? j = none := by
+    intro j hj; rw [hget, hj]; rfl
+  refine ⟨h.transfer s1 (fun c hc => h.cur c (s3 ▸ hc)) hdead ?_ hnd hsym, Grows.pointwise s1 hdead ?_⟩
+  · intro j m hm
+    have w := h.node j m hm
+    refine ⟨unlinked id j m, by rw [hget, hm]; rfl, rfl, rfl, ⟨fun hv => ?_, w.cleanups, w.callback⟩⟩
+    simp only [unlinked]; split
+    · rfl
+    · exact w.run hv
+  · intro j m m' hm hm' hv
+    rw [hget, hm] at hm'; cases hm'; exact hv
+
 /-- `createNode` -/
 theorem RInvP.createNode {P : Id → Prop} {r r' : Root} {v : Option Int} {id : Id} (h : RInvP P r)
     (hc : createNode r v = .ok (r', id)) :
@@ -788,9 +804,10 @@ theorem pres_dnode {f : Nat} (ih : PresAll f) (P : Id → Prop) (r : Root) (id :
   · rename_i r1 h1
     simp only [Except.ok.injEq] at hx
     subst hx
-    obtain ⟨i1, g1⟩ := ih.dchildren P r id r1 hI h1
+    obtain ⟨i0, g0⟩ := hI.unsubscribe id
+    obtain ⟨i1, g1⟩ := ih.dchildren P (unsubscribe r id) id r1 i0 h1
     obtain ⟨i2, g2, d2⟩ := i1.removeNode id
-    exact ⟨⟨i2, g1.trans g2⟩, d2⟩
+    exact ⟨⟨i2, (g0.trans g1).trans g2⟩, d2⟩
 
 theorem pres_loop {f : Nat} (ih : PresAll f) (P : Id → Prop) (r : Root) (l : List Id) (r' : Root)
     (hI : RInvP P r) (hx : propagateLoop (f + 1) r l = .ok r') : RootPost P r r' := by
@@ -1639,6 +1656,18 @@ theorem XInv.removeNode {P : Id → Prop} {r : Root} (hI : RInvP P r) (h : XInv 
   obtain ⟨a, b, _⟩ := h.removed (removeNode_removed hI.nd hI.sym id) s1 s5 s6
   exact ⟨a, b⟩
 
+theorem XInv.unsubscribe {P : Id → Prop} {r : Root} (hI : RInvP P r) (h : XInv r) (id : Id) :
+    XInv (unsubscribe r id) ∧ XStep r (unsubscribe r id) ∧ SameVals r (unsubscribe r id) := by
+  obtain ⟨hget, _, _, _, ⟨s1, _, _, _, s5, s6, _⟩⟩ := unsubscribe_spec hI.nd hI.sym id
+  refine h.pointwise s1 s5 s6 ?_
+  intro j m' hm'
+  rw [hget, Option.map_eq_some_iff] at hm'
+  obtain ⟨m, hm, rfl⟩ := hm'
+  refine ⟨m, hm, rfl, fun x => ⟨x.a, fun hc => ?_, x.c⟩⟩
+  simp only [unlinked]; split
+  · rfl
+  · exact x.b hc
+
 theorem XInv.createNode {r r' : Root} {v : Option Int} {id : Id}
     (h : XInv r) (hc : createNode r v = .ok (r', id)) : XInv r' ∧ XStep r r' := by
   obtain ⟨hid, hget, hsz, _, _, _, hq, hb, _⟩ := createNode_get? hc
@@ -2037,14 +2066,16 @@ theorem safe_dlist {f : Nat} (ih : SafeAll f) (P : Id → Prop) (r : Root) (cs :
 theorem safe_dnode {f : Nat} (ih : SafeAll f) (P : Id → Prop) (r : Root) (id : Id)
     (hI : RInvP P r) (hX : XInv r) : Safe (disposeNode (f + 1) r id) (XPost r) := by
   simp only [disposeNode]
-  have h1 := ih.dchildren P r id hI hX
+  obtain ⟨i0, g0⟩ := hI.unsubscribe id
+  obtain ⟨x0, s0, _⟩ := hX.unsubscribe hI id
+  have h1 := ih.dchildren P (unsubscribe r id) id i0 x0
   split
   · rename_i e he; rw [he] at h1; exact h1
   · rename_i r1 he
     rw [he] at h1
-    obtain ⟨i1, g1⟩ := (presAll f).dchildren P r id r1 hI he
+    obtain ⟨i1, g1⟩ := (presAll f).dchildren P (unsubscribe r id) id r1 i0 he
     obtain ⟨_, g2, _⟩ := i1.removeNode id
-    exact XPost.trans h1 g1 g2 (h1.1.removeNode i1 id)
+    exact XPost.trans (XPost.trans ⟨x0, s0⟩ g0 g1 h1) (g0.trans g1) g2 (h1.1.removeNode i1 id)
 
 theorem safe_updates {f : Nat} (ih : SafeAll f) (P : Id → Prop) (r : Root) (s : Id)
     (hI : RInvP P r) (hX : XInv r) (hs : ∃ n, r.get? s = some n ∧ n.value ≠ none) :
